@@ -388,11 +388,23 @@ fn verify_rebuild(source_path: &Path, target_path: &Path, options: &RebuildOptio
         expected_files.push(&file.name);
     }
 
-    if target_files.len() != expected_files.len() {
+    // The builder generates a (listfile) / (attributes) for the target that names itself.
+    // A source whose own listfile does not list the special files (Blizzard's archives, a
+    // user-supplied listfile) has no counterpart for them: they are not counted.
+    let target_count = target_files
+        .iter()
+        .filter(|f| {
+            !matches!(f.name.as_str(), "(listfile)" | "(attributes)")
+                || expected_files
+                    .iter()
+                    .any(|e| e.eq_ignore_ascii_case(&f.name))
+        })
+        .count();
+    if target_count != expected_files.len() {
         return Err(Error::invalid_format(format!(
             "File count mismatch: expected {}, got {}",
             expected_files.len(),
-            target_files.len()
+            target_count
         )));
     }
 
